@@ -333,6 +333,7 @@ pub fn run_property(prop: &str, tier: &str) -> Option<Outcome> {
             crate::props2::c07(tier, &mut acc, &mut bounds);
             // memory safety must not depend on the value type (zero-sized, 1..16 bytes, user-defined)
             run_types("C07", tier, &mut acc, &mut bounds);
+            crate::props2::c07_shifty(tier, &mut acc, &mut bounds);
             ("model_checking", "closure: every reachable state x every label (+ fail links, output chains) of every automaton, built and deserialised; non-trivial E2 cases = haystacks with overlapping matches; decoder: scalar values >= U+0080".into(),
              vec!["std's unsafe-precondition checks (debug-assertions profile) are the UB oracle for executed paths".into()])
         }
